@@ -865,7 +865,12 @@ class StubsStringGenerator:
         inner_indentations: str,
         already_defined_names: set[str],
     ) -> str:
-        superclass_class = self._get_class_in_package(superclass)
+        try:
+            superclass_class = self._get_class_in_package(superclass)
+        except LookupError:
+            # The internal superclass was not analysed (it belongs to another library or to an excluded test directory),
+            # so there are no members that could be added to the subclass
+            return ""
 
         # Methods
         superclass_methods_text, existing_names = self._create_class_method_string(
